@@ -228,7 +228,8 @@ def print_assumptions(prop, theorems):
 
 def coqchk(prop, timeout=1500):
     """Independent re-check of props/<prop>.vo and everything it depends on; returns (rc, axioms-section text)."""
-    cmd = ['coqchk', '-silent', '-o', '-Q', 'base', 'DC', '-Q', 'gen', 'DC', '-Q', 'model', 'DC', '-Q', 'proofs', 'DC',
+    # shared lock: several re-checks may run together, but not while coq/mk.sh (exclusive lock) rewrites .vo files
+    cmd = ['flock', '-s', os.path.join(VERIF, 'build', 'mk.lock'), 'coqchk', '-silent', '-o', '-Q', 'base', 'DC', '-Q', 'gen', 'DC', '-Q', 'model', 'DC', '-Q', 'proofs', 'DC',
            '-Q', 'props', 'DC', 'DC.' + prop]
     rc, out, dt = run_cmd(cmd, cwd=COQ, timeout=timeout)
     m = re.search(r'\* Axioms:(.*?)\* Constants/Inductives relying on type-in-type', out, re.S)
